@@ -1561,36 +1561,28 @@ def evaluate__lang(self: XPathFunction, context: ta.ContextType = None) -> bool:
     else:
         item = context.item
 
-    if not isinstance(item, ElementNode):
+    if not isinstance(item, XPathNode) or isinstance(item, DocumentNode):
         raise self.error('XPTY0004')
-    elif isinstance(item, EtreeElementNode):
-        try:
-            attr = item.value.attrib[XML_LANG]
-        except KeyError:
-            if len(self) > 1 or context is None:
-                return False
 
-            for elem in context.iter_ancestors():
-                if isinstance(elem, EtreeElementNode):
-                    if XML_LANG in elem.value.attrib:
-                        lang = cast(str, elem.value.attrib[XML_LANG])
-                        break
-            else:
-                return False
-        else:
+    # the xml:lang attribute of the nearest ancestor-or-self element
+    node: Optional[XPathNode] = item
+    while node is not None:
+        if isinstance(node, EtreeElementNode) and XML_LANG in node.value.attrib:
+            attr = node.value.attrib[XML_LANG]
             if not isinstance(attr, str):
                 return False
-            lang = attr.strip()
-
-        test_lang: str = self.get_argument(context, cls=str)
-        if test_lang is None:
-            test_lang = ''
-
-        test_lang = test_lang.strip().lower()
-        lang = lang.strip().lower()
-        return lang == test_lang or lang.startswith(test_lang) and lang[len(test_lang)] == '-'
+            lang = attr.strip().lower()
+            break
+        node = node.parent
     else:
         return False
+
+    test_lang: str = self.get_argument(context, cls=str)
+    if test_lang is None:
+        test_lang = ''
+
+    test_lang = test_lang.strip().lower()
+    return lang == test_lang or lang.startswith(test_lang) and lang[len(test_lang)] == '-'
 
 
 ###
